@@ -373,3 +373,43 @@ func TestSpinIsCutOff(t *testing.T) {
 		t.Fatalf("spinner still running: %d -> %d", n, spins)
 	}
 }
+
+// TestFairTailLetsSpinLocksFinish: a correct spin lock that a priority
+// schedule starves finishes once the recording is used up and scheduling turns
+// fair; a task spinning on something nobody will ever change still does not.
+func TestFairTailLetsSpinLocksFinish(t *testing.T) {
+	body := func(s *simrt.Sim, lock *int32, n *int) func() {
+		return func() {
+			for k := 0; k < 2; k++ {
+				for !simatomic.CompareAndSwapInt32(lock, 0, 1) {
+				}
+				*n++
+				simatomic.StoreInt32(lock, 0)
+			}
+		}
+	}
+	for seed := uint64(0); seed < 200; seed++ {
+		// first run: PCT with a small cap
+		tp := tape.New(seed)
+		s := simrt.New(tp, simrt.Strategy{Kind: 2, Depth: 2, Horizon: 50})
+		s.MaxEvents = 300
+		var lock int32
+		n := 0
+		s.Go("a", body(s, &lock, &n))
+		s.Go("b", body(s, &lock, &n))
+		if s.Run() {
+			continue
+		}
+		// extension: same choices, fair tail
+		s2 := simrt.New(tape.Replay(append([]int(nil), tp.Out...)), simrt.Strategy{Kind: 2, Depth: 2, Horizon: 50})
+		s2.MaxEvents = 6000
+		s2.FairTail = true
+		var lock2 int32
+		n2 := 0
+		s2.Go("a", body(s2, &lock2, &n2))
+		s2.Go("b", body(s2, &lock2, &n2))
+		if !s2.Run() || n2 != 4 {
+			t.Fatalf("seed %d: spin lock did not finish under the fair tail: %v n=%d", seed, s2.Viol, n2)
+		}
+	}
+}
